@@ -295,6 +295,8 @@ def cat(*segs):
     for s in flat:
         if is_const(s) and isinstance(s[1], (bytes, str)) and len(s[1]) == 0:
             continue
+        if not is_const(s) and length_of(s) == 0 and type_of(s) in ('bytes', 'str'):
+            continue
         if out and is_const(s) and is_const(out[-1]) and type(s[1]) is type(out[-1][1]) \
                 and isinstance(s[1], (bytes, str)):
             out[-1] = const(out[-1][1] + s[1])
@@ -362,6 +364,8 @@ def slice_(t, lo, hi):
                 return cat(*segs) if segs else (const('') if type_of(t) == 'str' else const(b''))
         if is_const(t) and isinstance(t[1], (bytes, str)):
             return const(t[1][a:b])
+        if a >= 0 and b is not None and 0 <= b <= a and type_of(t) in ('bytes', 'str'):
+            return const(b'') if type_of(t) == 'bytes' else const('')
         if tag(t) in ('list', 'tuple') and (b is None or b >= 0) and a >= 0:
             return (t[0], t[1][a:b])
         if n is not None and a == 0 and b == n:
